@@ -28,3 +28,39 @@ def bool_spec(low):
 def in_range(v, lo, hi):
     """Inclusive range check with optional bounds."""
     return (lo is None or v >= lo) and (hi is None or v <= hi)
+
+
+def port_ok(p):
+    """p is the text of an integer in 0..65535."""
+    return int_ok(p) and 0 <= int_of(p) and int_of(p) <= 65535
+
+
+def inet_spec(s, default_host):
+    """inet-address family (docs/standard-datatypes.rst): 'host:port', host only or port only.
+    The text after the LAST colon is the port, unless what precedes it still contains a colon and
+    is not written in brackets - then the whole text is an (unbracketed IPv6) host.  Brackets
+    around the host are removed; the host is lower-cased; an absent host is the default host; a
+    port must be an integer in 0..65535.  -> (status, host, has_port, port); status 0 = ok,
+    1 = ValueError."""
+    if ':' in s:
+        h = before_last(s, ':')
+        p = after_last(s, ':')
+        if h.startswith('[') and h.endswith(']'):
+            h = h[1:-1]
+        elif ':' in h:
+            h = s
+            p = ''
+        if p != '' and not port_ok(p):
+            return (1, '', False, 0)
+        host = h.lower()
+        if host == '':
+            host = default_host
+        return (0, host, p != '', int_of(p))
+    if port_ok(s):
+        return (0, default_host, True, int_of(s))
+    if word_count(s) != 1:
+        return (1, '', False, 0)
+    host = s.lower()
+    if host == '':
+        host = default_host
+    return (0, host, False, 0)
